@@ -11,7 +11,11 @@ Tie A, on every run:
      datastore[b].get_eventcount(starttime, endtime) for many windows (any whole-minute UTC
      offset, sub-millisecond instants, zero-width and inverted windows) on all three back ends,
      and iso8601.parse_date(x.isoformat()) == x on every generated window (the oracle hypothesis
-     of C12_query_bucket_is_get);
+     of C12_query_bucket_is_get); and the same comparison for EVERY read of EVERY generated program
+     at the moment its result is handed out (harness/c12_reads.py: second and later reads of a
+     bucket after built-ins changed the earlier results in place, counts after reads, reads after
+     the program assigned another window, reads of a later query of the same process after a
+     mutating query or a write to the bucket), plus the reads a program returns untouched;
   3. on the memory back end the storage calls a query makes are observed (spy on the storage
      object) and replayed on the extracted heap model (coq/Extract/ExC12.v): which methods a
      query calls (only reads), what each read returns, the store's content after each read, and
@@ -38,10 +42,17 @@ from . import c12_reads as reads
 from .common import Check, sx
 from .evutil import BASE, dt, us_of_dt, us_of_td
 
-RULE = ("boundary windows and programs first (zero-width, inverted, sub-millisecond, every UTC offset class; one program per "
-        "built-in that mutates its arguments; one per failure kind after valid statements), then seeded random programs of 2-9 "
-        "statements over 1-3 populated buckets and random windows; non-trivial = a program that read at least one bucket with "
-        "events in the window and then applied a mutating built-in or raised midway")
+RULE = ("boundary windows and programs first (zero-width, inverted, sub-millisecond, every UTC offset class; per built-in that "
+        "mutates its arguments: the plain call, and the call followed by a re-read of the same bucket (events and count) returned "
+        "untouched -- reads nested in the call, the count taken first, an earlier untouched read of the same bucket kept; a program "
+        "that assigns STARTTIME/ENDTIME between reads; one program per failure kind after valid statements), then seeded random "
+        "programs of 2-12 statements over 1-3 populated buckets and random windows with reads of events and counts at any position "
+        "(preferably of a bucket read before), built-ins and window assignments in between, returning the reads no later statement "
+        "was given; sequences of queries on one Datastore object (mutating query, reading query over the same window under equal / "
+        "re-offset datetimes, an insert/delete/replace in between, another window and back); per window a program with counts "
+        "before/between/after two reads and an annotating built-in.  Every read of every program is compared at hand-out with the "
+        "direct windowed read.  non-trivial = a program that read at least one bucket with events in the window and then applied a "
+        "mutating built-in or raised midway")
 
 READ_METHODS = {"buckets", "get_metadata", "get_events", "get_eventcount", "get_event"}
 ALLOWED_DS_ATTRS = {"buckets", "__getitem__", "metadata", "get", "get_eventcount"}
@@ -457,7 +468,7 @@ def run_backend(backend, tier, seed, repo, have_driver=True):
     # (the extracted model's run time grows faster than quadratically with the steps of a round: more, shorter rounds)
     n_rounds = (4 if quick else 180) if backend == "memory" else (2 if quick else 30)
     n_random = (25 if quick else 50) if backend == "memory" else (15 if quick else 60)
-    n_windows = (40 if quick else 60) if backend == "memory" else (25 if quick else 80)
+    n_windows = (35 if quick else 60) if backend == "memory" else (25 if quick else 80)
     n_seq = (2 if quick else 3) if backend == "memory" else (2 if quick else 6)
     from aw_query import functions as qfunctions
     cur = {}              # the running round / query: storage, world, window
@@ -649,8 +660,10 @@ def run_backend(backend, tier, seed, repo, have_driver=True):
             st, en = aware(a, rng.choice([0, 60, -300, 345])), aware(b, rng.choice([0, 0, 120]))
             # (the two longer re-read shapes are decided by the oracle alone; "+reread" and the random programs are
             # mirrored into the model as well)
-            run_program(rnd, ds, sizes, kind, stmts, fail, spec, a, b, st, en,
-                        mirror=not (kind.endswith("-nested") or kind.endswith("-earlier")))
+            mirror = not (kind.endswith("-nested") or kind.endswith("-earlier"))
+            if kind == "random" and quick and backend == "memory" and rng.random() < 0.35:
+                mirror = False           # (keeps the rounds of the quick tier short; the oracle sees every program)
+            run_program(rnd, ds, sizes, kind, stmts, fail, spec, a, b, st, en, mirror=mirror)
         # ---- sequences of queries in this process, same Datastore object: a mutating query, a reading query over the same
         # window (the same datetime objects, equal ones, the same instants under another UTC offset), a write to the bucket
         # in between, another window and back
